@@ -80,6 +80,19 @@ def gen_cases(chk):
             f2 = B.load_const(3, 0x2222) + B.stx('dw', 10, 3, off) + B.mov(0, 0) + B.EXIT
             p = B.mov(0, 0) + B.callx(1) + B.EXIT + f1 + f2
             cases.append(Case(p, calc=calc, fam='frames-nested', budget=200))
+    # 9. chains of 1..8 nested calls under a per-function calculator with a different frame size for every function: each level
+    #    adds (r10 before its call) - (r10 after the return) to r0, so any frame pointer that does not come back shows
+    for depth in range(1, 9):
+        for _ in range(6 if thorough else 2):
+            body = B.mov(0, 0)
+            entries = []
+            for k in range(depth):
+                entries.append(len(body) // 8)
+                body += B.movr(7, 10) + B.callx(3) + B.alu('sub', 7, src=10) + B.alu('add', 0, src=7) + B.EXIT
+            entries.append(len(body) // 8)
+            body += B.EXIT
+            table = [(pc, 8 * (1 + rng.below(6))) for pc in entries[1:]] + [(0, 8 * (1 + rng.below(6)))]
+            cases.append(Case(body, calc=(8 * (1 + rng.below(6)), table), fam='chain-calc:%d' % depth, budget=400))
     # 7. touching the stack below its 512 bytes is an error, not a crash
     p = B.callx(1) + B.EXIT + B.callx(1) + B.EXIT + B.load_const(3, 1) + B.stx('dw', 10, 3, -8) + B.mov(0, 0) + B.EXIT
     cases.append(Case(p, fam='stack-exhausted', budget=100))
